@@ -1316,6 +1316,8 @@ class Interp:
                 return IntSV(-self.to_int(v))
             if isinstance(node.op, ast.UAdd):
                 return v
+            if isinstance(node.op, ast.Invert) and isinstance(v, int):
+                return ~v
             raise Unsupported("unary op")
         if k is ast.BinOp:
             return natives.binop(self, node.op, self.eval(node.left, env), self.eval(node.right, env))
